@@ -9,6 +9,7 @@ from vlib import gen, observe, pdbio, common
 from vlib.pdbio import Atom
 
 PROPERTY = "C13"
+REDUCE_KEYS = ["pdb"]
 LEVEL = "exploration"
 RULE = ("structures with 2-4 chains (upper/lower-case, digit and blank ids, TER present or absent between chains, "
         "hetero groups carrying the id of a protein chain or their own, hetero records first or last, optional second "
